@@ -108,6 +108,19 @@ Lemma roundtrip_disciplined :
   exists s, drun (init (mkCaps 2 2 5)) roundtrip_trace = Some s /\ recv_ids_tr roundtrip_trace = [1; 2].
 Proof. eexists. split; vm_compute; reflexivity. Qed.
 
+(* the same through two subscriptions of one client: the request to topic 1 travels through the
+   later pump, the one to topic 0 through the first; both arrive in the one recv channel *)
+Definition two_subs_trace : list event :=
+  [ ESub 0 0; ESub2 0 0 1; ENew 0 1 1; ESend 1 0 true MForever SOk; EXTake 0 true; EXPut 0; ERecv 0 0 1;
+    EReply 0 0 1; EWait 1 0 false (WGot (RFor 1)); EFree 0;
+    ENew 0 0 2; ESend 1 0 false MNow SOk; EPumpTake 0 false; EPumpPut 0; ERecv 0 0 2;
+    EReply 0 0 2; EWait 1 0 true (WGot (RFor 2)) ].
+
+Lemma two_subs_disciplined :
+  exists s, drun (init (mkCaps 2 2 5)) two_subs_trace = Some s /\ recv_ids_tr two_subs_trace = [1; 2]
+            /\ subs_of s 0 = [0; 1].
+Proof. eexists. split; [vm_compute; reflexivity|]. split; vm_compute; reflexivity. Qed.
+
 (** Check.bulk_fill (used for the 40960-slot channel) agrees with the event-by-event [fill] *)
 Definition same_view (a b : option state) : bool :=
   match a, b with
